@@ -40,6 +40,8 @@ def case_task(task):
                 part.violation("%s in %s while computing the reported CCFs" % (et, where), dict(case, msg=msg))
             continue
         part.count("evaluations")
+        if G > 256:
+            part.count("fine_grid_cases")
         part.see("%s|G%d|D%d|%s|%s" % (c["mode"], G, D, kind, gen.key_str(f.key())))
         if sorted(map(str, ccfs.keys())) != sorted(str(names[i]) for i in range(f.K)):
             part.violation("reported CCFs do not cover exactly the clones of the tree", dict(case, keys=sorted(map(str, ccfs))))
@@ -108,7 +110,7 @@ def run(ctx):
     quick = ctx.tier == "quick"
     ctx.rule = ("(a) every forest shape on <=4 clones x G in {2,3,4,5,6} x D in {1,2} against a brute-force maximum; (b) "
                 "random forests to 10 clones, up to 8 children, G in {11,21,101}, D 1-3, data moderate / smooth / flat "
-                "(all ties) / peaked, against an independent max-plus recursion; ties accepted (only the value is compared); "
+                "(all ties) / peaked, and trees to 5 clones on fine grids 257..1001, against an independent max-plus recursion; ties accepted (only the value is compared); "
                 "distinct = (mode, grid, samples, data kind, canonical forest)")
     ctx.assumptions = ["the two reference maximisers cross-check each other on the brute-force cases"]
     rng = np.random.default_rng([ctx.seed, 1010])
@@ -133,7 +135,18 @@ def run(ctx):
         cases.append({"id": cid, "mode": "recursive", "forest": f.describe(), "G": [11, 21, 11, 101][i % 4] if n <= 7 else 11,
                       "D": 1 + i % 3, "kind": ["moderate", "smooth", "flat", "peaked", "binom"][i % 5]})
         cid += 1
-    tasks = [{"seed": ctx.seed, "cases": cases[i::48]} for i in range(48)]
+    # fine grids (indices beyond 8 / 16-bit-free ranges of small integer types, the user may choose any grid size >= 11)
+    big = []
+    for i in range(16 if quick else 400):
+        n = int(rng.integers(1, 6))
+        f = gen.random_forest(rng, n, max_children=4, shape=["chain", None, "star", "bushy"][i % 4], n_tops=[1, None, 2][i % 3])
+        big.append({"id": cid, "mode": "recursive", "forest": f.describe(), "G": [257, 301, 513, 600, 258, 1001, 401, 777][i % 8],
+                    "D": 1 + i % 2, "kind": ["smooth", "peaked", "binom", "moderate"][i % 4]})
+        cid += 1
+    tasks = [{"seed": ctx.seed, "cases": [b]} for b in big]
+    tasks += [{"seed": ctx.seed, "cases": cases[i::48]} for i in range(48)]
     ctx.map("checks.c10", "case_task", tasks, timeout=3000)
+    if ctx.counters.get("fine_grid_cases", 0) < 10:
+        ctx.inconc("too few fine-grid cases")
     if ctx.counters.get("brute_force_cases", 0) < 40:
         ctx.inconc("too few brute-force cases")
